@@ -69,3 +69,15 @@ class Box:
         if self.v > 0:
             return True
         return False
+
+
+def twin_a(x):
+    if x > 0:
+        return 1
+    return 0
+
+
+def twin_b(y):
+    if y > 0:
+        return 1
+    return 0
